@@ -109,9 +109,25 @@ def _run_union(case, res):
             missing=[fmt_space(U, s) for s in (exp - got)][:3],
             spurious=[fmt_space(U, s) for s in (got - exp)][:3],
         )
+    atta, attb = A.attractors(), B.attractors()
+    # attractors found after the chosen strategy: every product at least once (exactly once is C01's business;
+    # expand_scc has a known over-count there)
+    got_after = call(sd.expanded_attractor_seeds)
+    seen_pairs = set()
+    for i, ss in got_after.items():
+        for s in ss:
+            st_ = full_state(U, s)
+            if st_ is None:
+                continue
+            xa = A.attractor_of_state(st_ & ((1 << na) - 1))
+            xb = B.attractor_of_state(st_ >> na)
+            if xa is not None and xb is not None:
+                seen_pairs.add((atta.index(xa), attb.index(xb)))
+    lost = [(pa, pb) for pa in range(len(atta)) for pb in range(len(attb)) if (pa, pb) not in seen_pairs]
+    if lost:
+        res.violate(f"union:{strat}:product-attractor-not-found-after-strategy", lost=len(lost), total=len(atta) * len(attb))
     sd2 = call(SuccessionDiagram, to_bn(U, via=via))
     call(sd2.build)
-    atta, attb = A.attractors(), B.attractors()
     hits = Counter()
     for i in sd2.expanded_ids():
         for s in sd2.node_data(i)["attractor_seeds"] or []:
